@@ -1,5 +1,5 @@
 SPECIFICATION Spec
 CONSTANTS
   LegacyFallback = FALSE
-INVARIANTS Law ChecksummedNeverAltered OthersUnaffected Alive TypeOK
+INVARIANTS Law ChecksummedNeverAltered OthersUnaffected Alive RangeCheckedReported TypeOK
 CHECK_DEADLOCK FALSE
